@@ -71,4 +71,17 @@ CHECKS = {
               'PDU) is covered by the session-level correspondence (C15/C06 harness), not by these theorems.'),
         note=COMMON_NOTE + 'IEEE doubles are not modelled: the generator uses dyadic rates and times so that every float the code computes is exact; round(x,2) is modelled as round-half-even on the exact rational and inputs within 0.005 of the threshold are outside the predicate. Mathlib (linarith, ring, ordered-field instance of Rat) is used in the lemma file only.',
         technique='Lean 4 theorems (potential-function invariant by induction over attempt lists, linarith over Rat); differential correspondence on a virtual clock'),
+    'C09': dict(
+        text=('Proof (tier 2, atomic handlers). Props/C09.lean over the model of SimpleCorrelator.put_delivery_segmented and the '
+              'deliver_sm branch of ESME._handle_request (after repairs 035d175, 7057b2b, a281261): for every n, every '
+              'permutation of the n segments, every interleaving with other deliver_sm traffic (other references, '
+              'unsegmented, receipts), while the delivery time-to-live is not exceeded, the hook gets n-1 placeholders and '
+              'then exactly one message with the parts in numeric order (induction over the operation list with the '
+              'collected-segments entry as invariant; insertion sort = sorted permutation via Mathlib.Data.List.Sort); every '
+              'segment is acknowledged (handler never drops); other references do not interfere. Tied to the code by '
+              'driving the real ESME._handle_request with PDUs from an independent encoder (SAR TLVs, UDH 8/16-bit, GSM/UCS2, '
+              'short_message/message_payload): all permutations for n<=5(6), random to 255, interleavings, duplicates. '
+              'Decoding of the UDH/SAR fields themselves belongs to C03/C04.'),
+        note=COMMON_NOTE + 'A whole _handle_request is one atomic step here; interleaving of the receiver with other tasks is the session model. Messages are abstracted to the fields the correlation logic reads.',
+        technique='Lean 4 theorems (invariant by induction over arbitrary operation lists; sorted-permutation argument); differential correspondence through the real handler'),
 }
